@@ -27,7 +27,7 @@ RULE = ('full grid: 6 entry points (open_input/open_output/open_ioport/get_*_nam
         'construction; every configuration is non-trivial: the recorded constructor / query calls '
         'and the import log are compared with the model')
 ASSUMPTIONS = [
-    'MIDO_BACKEND is read when no backend name is given (judged only with use_environ=True, the statement leaves the other case open)',
+    'MIDO_BACKEND is read when no backend name is given, whatever use_environ says (docs/backends/index.rst: use_environ governs the MIDO_DEFAULT_* port names only)',
     'api given both as name suffix and as Backend(api=...) is outside the grid (not judged)',
     'the default backend mido.backends.rtmidi cannot be imported in the sandbox: only its lazy naming is checked',
 ]
@@ -242,8 +242,6 @@ def grid():
                 givens, (False, True), (False, True), (False, True),
                 ('none', 'suffix', 'backendkw', 'call', 'suffix+call'), (True, False), (False, True),
                 tuple(VARIANTS), (False, True)):
-            if via_env and not use_environ:
-                continue          # MIDO_BACKEND with use_environ=False: not judged
             yield (entry, given, env_in, env_out, env_io, api_mode, use_environ, via_env, mod, load)
 
 
